@@ -19,7 +19,7 @@ def Ctx.capLimit (cx : Ctx) : Nat :=
   match cx.elem with
   | .u32 | .nan => 2305843009213693951        -- isize::MAX / 4
   | .cell => 576460752303423487        -- isize::MAX / 16
-  | .wide => 96076792050570581        -- isize::MAX / 96
+  | .wide | .widecell => 96076792050570581        -- isize::MAX / 96
   | .zst | .unit => WORD - 1
 
 def Ctx.same (cx : Ctx) : MOut := { data := cx.prev.data, c := cx.prev.c, r := cx.prev.r }
